@@ -27,7 +27,11 @@ Definition xwf (x : xstate) : Prop :=
   (ca (xb x) = None -> x_ro x = false) /\ (x_del x <> None -> ca (xb x) <> None).
 Definition sys_inv (x : xstate) : Prop :=
   (forall m, In m (x_sys_msgs x) -> m_seq m <= x_sys_lastid x) /\ x_sys_lastid x <= x_sys_seqid x.
-Definition xinv (x : xstate) : Prop := inv_num (xb x) /\ xwf x /\ sys_inv x.
+(* 'sys' is never read-only; every peer-to-peer topic satisfies the numbering invariant and has no read-only bit
+   while it is not loaded *)
+Definition pt_inv (p : ptopic) : Prop := inv_num (pt_b p) /\ (ca (pt_b p) = None -> pt_ro p = false).
+Definition xp_inv (x : xstate) : Prop := x_sys_ro x = false /\ Forall pt_inv (x_p2p x).
+Definition xinv (x : xstate) : Prop := inv_num (xb x) /\ xwf x /\ sys_inv x /\ xp_inv x.
 
 Lemma accepts_attached b sid : accepts sm b sid = true -> match ca b with Some c => attached c sid = true | None => False end.
 Proof. unfold accepts. destruct (ca b); [|discriminate]. intros H. apply andb_true_iff in H. tauto. Qed.
@@ -67,8 +71,15 @@ Qed.
 (* exactly one error reply, to the sender; nothing stored anywhere; and unless the fault plan is a crash
    (the process dies after replying) nothing in memory changes either *)
 Definition stores_same (x x' : xstate) : Prop :=
-  st (xb x') = st (xb x) /\ x_susp x' = x_susp x /\ x_sys_seqid x' = x_sys_seqid x /\ x_sys_msgs x' = x_sys_msgs x.
+  st (xb x') = st (xb x) /\ x_susp x' = x_susp x /\ x_sys_seqid x' = x_sys_seqid x /\ x_sys_msgs x' = x_sys_msgs x /\
+  map (fun p => st (pt_b p)) (x_p2p x') = map (fun p => st (pt_b p)) (x_p2p x).
 Definition is_crash (f : fault) : bool := match f with CrashAt _ => true | _ => false end.
+
+Lemma stores_same_after_crash f x y : stores_same x y -> stores_same x (after_crash f y).
+Proof.
+  intros [A [B [C [D E]]]]. destruct f; cbn [after_crash]; try (repeat split; assumption).
+  unfold mem_reset. repeat split; cbn; try assumption. rewrite map_map. exact E.
+Qed.
 
 Lemma xreject_no_effect x f sid content noecho : xwf x -> xaccepts x sid = false ->
   exists code, 400 <= code /\
@@ -82,18 +93,19 @@ Proof.
   - unfold TopicLife.xcore, TopicLife.base_step. cbn [op_sid].
     destruct (x_ro x && x_attached x sid) eqn:BL.
     + exists 403. split; [lia|]. cbn [fst snd]. split; [reflexivity|]. split.
-      * destruct f; cbn [after_crash mem_reset]; repeat split.
+      * apply stores_same_after_crash. repeat split.
       * intros NC. destruct f; [reflexivity|reflexivity|discriminate].
     + assert (AC : accepts sm (xb x) sid = false).
       { destruct (x_ro x) eqn:RO; cbn [andb negb] in *; [apply x_attached_accepts; exact BL|exact A]. }
       destruct (reject_no_effect dr nr sm f (xb x) sid content noecho AC) as [code [Hc E]].
       exists code. split; [exact Hc|]. unfold step_f. cbn [fst snd]. rewrite E.
-      destruct f; cbn [fst snd st ca after_crash mem_reset set_b set_ro xb x_susp x_sys_seqid x_sys_msgs];
-        (split; [reflexivity|]); (split; [destruct (ca (xb x)); repeat split|]); intros NC; try discriminate.
-      * destruct (ca (xb x)) eqn:CA; [reflexivity|]. unfold set_ro, set_b. cbn. rewrite (WF1 eq_refl).
-        destruct x; cbn in *. subst. reflexivity.
-      * destruct (ca (xb x)) eqn:CA; [reflexivity|]. unfold set_ro, set_b. cbn. rewrite (WF1 eq_refl).
-        destruct x; cbn in *. subst. reflexivity.
+      split; [destruct f; reflexivity|]. split.
+      * destruct f; cbn [fst snd st ca]; apply stores_same_after_crash; try (destruct (ca (xb x))); repeat split.
+      * intros NC. destruct f; try discriminate; cbn [fst snd st ca after_crash].
+        -- destruct (ca (xb x)) eqn:CA; [reflexivity|]. unfold set_ro, set_b. cbn. rewrite (WF1 eq_refl).
+           destruct x; cbn in *. subst. reflexivity.
+        -- destruct (ca (xb x)) eqn:CA; [reflexivity|]. unfold set_ro, set_b. cbn. rewrite (WF1 eq_refl).
+           destruct x; cbn in *. subst. reflexivity.
 Qed.
 
 (* ---------- me / fnd: always refused, nothing changes ---------- *)
@@ -123,22 +135,24 @@ Proof.
 Qed.
 
 (* ---------- sys: any logged-in author, no attachment ---------- *)
-Lemma publish_sys_accepts x sid c : sess_uid sm sid <> 0%N -> sys_inv x ->
+Lemma publish_sys_accepts x sid c : sess_uid sm sid <> 0%N -> sys_inv x -> x_sys_ro x = false ->
   publish_sys sm x NoFault sid c =
     (set_sys (x_sys_lastid x + 1) (x_sys_lastid x + 1)
              (x_sys_msgs x ++ [mkMsg (x_sys_lastid x + 1) (sess_uid sm sid) c 0]) x,
-     [(sid, Ctrl 202 [(P_seq, x_sys_lastid x + 1)])]).
+     (sid, Ctrl 202 [(P_seq, x_sys_lastid x + 1)]) :: sys_push x (x_sys_lastid x + 1) (sess_uid sm sid)).
 Proof.
-  intros U [S1 S2]. unfold publish_sys. destruct (N.eqb_spec (sess_uid sm sid) 0); [contradiction|].
-  cbn [call fails negb after_crash].
+  intros U [S1 S2] RO. unfold publish_sys. destruct (N.eqb_spec (sess_uid sm sid) 0); [contradiction|].
+  rewrite RO. cbn [call fails negb after_crash].
   destruct (existsb (fun m => m_seq m =? x_sys_lastid x + 1) (x_sys_msgs x)) eqn:E; [|reflexivity].
   apply existsb_exists in E. destruct E as [m [Hm E]]. apply Z.eqb_eq in E. specialize (S1 m Hm). lia.
 Qed.
 
 (* a publish to sys that is not acknowledged stored no message; unless the process died its lastID is unchanged *)
 Lemma publish_sys_cases x f sid c :
-  (exists n, snd (publish_sys sm x f sid c) = [(sid, Ctrl 202 [(P_seq, n)])]) \/
-  ((snd (publish_sys sm x f sid c) = [(sid, Ctrl 500 [])] \/ snd (publish_sys sm x f sid c) = []) /\
+  (exists n, snd (publish_sys sm x f sid c) = (sid, Ctrl 202 [(P_seq, n)]) :: sys_push x n (sess_uid sm sid)) \/
+  ((snd (publish_sys sm x f sid c) = [(sid, Ctrl 500 [])] \/
+    (x_sys_ro x = true /\ snd (publish_sys sm x f sid c) = [(sid, Ctrl 403 [])]) \/
+    snd (publish_sys sm x f sid c) = []) /\
    x_sys_msgs (fst (publish_sys sm x f sid c)) = x_sys_msgs x /\
    st (xb (fst (publish_sys sm x f sid c))) = st (xb x) /\
    (is_crash f = false -> x_sys_lastid (fst (publish_sys sm x f sid c)) = x_sys_lastid x /\
@@ -146,7 +160,10 @@ Lemma publish_sys_cases x f sid c :
 Proof.
   unfold publish_sys. destruct (sess_uid sm sid =? 0)%N.
   - right. cbn [fst snd]. repeat split; auto.
-  - repeat break_match; cbn [fst snd]; try (left; eexists; reflexivity); right;
+  - destruct (x_sys_ro x) eqn:RO.
+    + right. cbn [fst snd]. split; [right; left; split; reflexivity|].
+      destruct f; cbn [after_crash mem_reset x_sys_msgs xb x_sys_lastid is_crash st]; repeat split; auto; try discriminate.
+    + repeat break_match; cbn [fst snd]; try (left; eexists; reflexivity); right;
       (split; [left; reflexivity|]);
       destruct f; cbn [after_crash mem_reset set_sys x_sys_msgs xb x_sys_lastid is_crash st]; repeat split; auto; try discriminate.
 Qed.
@@ -155,14 +172,23 @@ Qed.
 Lemma inv_num_drop b n : inv_num b -> inv_num (mkState (st b) None n).
 Proof. destruct b as [s [c|] n0]; intros I; [apply (inv_num_unload s c n0 n); exact I|exact I]. Qed.
 
-Lemma xinv_mem_reset x : inv_num (xb x) -> sys_inv x -> xinv (mem_reset x).
+Lemma xp_inv_mem_reset x : xp_inv x -> xp_inv (mem_reset x).
 Proof.
-  intros I [S1 S2]. unfold xinv, xwf, sys_inv, mem_reset. cbn.
-  split; [apply inv_num_drop; exact I|]. split; [split; [reflexivity|congruence]|].
-  split; [intros m Hm; specialize (S1 m Hm); lia|lia].
+  intros [_ P]. split; [reflexivity|]. unfold mem_reset. cbn [x_p2p].
+  apply Forall_map. eapply Forall_impl; [|exact P]. intros p [I _]. split; cbn [pt_b pt_ro ca]; [|reflexivity].
+  apply inv_num_drop. exact I.
+Qed.
+
+Lemma xinv_mem_reset x : inv_num (xb x) -> sys_inv x -> xp_inv x -> xinv (mem_reset x).
+Proof.
+  intros I [S1 S2] P. split; [|split; [|split]].
+  - unfold mem_reset. cbn [xb]. apply inv_num_drop. exact I.
+  - unfold xwf, mem_reset. cbn. split; [reflexivity|congruence].
+  - unfold sys_inv, mem_reset. cbn. split; [intros m Hm; specialize (S1 m Hm); lia|lia].
+  - apply xp_inv_mem_reset. exact P.
 Qed.
 Lemma xinv_after_crash f x : xinv x -> xinv (after_crash f x).
-Proof. intros X. destruct f; cbn; auto. destruct X as [I [_ S]]. now apply xinv_mem_reset. Qed.
+Proof. intros X. destruct f; cbn; auto. destruct X as [I [_ [S P]]]. now apply xinv_mem_reset. Qed.
 
 Lemma inv_num_wipe s n : inv_num (mkState (wipe s) None n).
 Proof. unfold inv_num. cbn. split; [intros n0 []|]. split; [constructor|lia]. Qed.
@@ -193,7 +219,7 @@ Proof.
     destruct f; cbn [after_crash].
     + split; [exact I|split]; [split; cbn; [exact W1|rewrite D; congruence]|exact S].
     + split; [exact I|split]; [split; cbn; [exact W1|rewrite D; congruence]|exact S].
-    + apply xinv_mem_reset; [cbn; apply inv_num_drop; exact I|exact S].
+    + destruct S as [S P]. apply xinv_mem_reset; [cbn; apply inv_num_drop; exact I|exact S|exact P].
   - pose proof (step_f_inv_num dr nr sm (xb x) (f, o) I) as I1.
     destruct (step_f dr nr sm (xb x) (f, o)) as [b1 o1]. cbn [fst] in *.
     assert (X2 : xinv (match ca b1 with None => set_ro false (set_b b1 x) | Some _ => set_b b1 x end)).
@@ -203,25 +229,123 @@ Proof.
       by (destruct (ca b1); exact D).
     split.
     + destruct o; try (apply xinv_after_crash; exact X2).
-      destruct X2 as [A [_ B]]. now apply xinv_mem_reset.
+      destruct X2 as [A [_ [B P]]]. now apply xinv_mem_reset.
     + destruct o; try (apply del_after_crash; exact D2). reflexivity.
 Qed.
 
 Lemma xinv_publish_sys x f sid c : xinv x -> xinv (fst (publish_sys sm x f sid c)).
 Proof.
   intros X. unfold publish_sys. destruct (sess_uid sm sid =? 0)%N; [exact X|].
-  destruct X as [I [W [S1 S2]]].
-  repeat break_match; cbn [fst]; apply xinv_after_crash; (split; [exact I|split; [exact W|]]);
+  destruct (x_sys_ro x); [cbn [fst]; apply xinv_after_crash; exact X|].
+  destruct X as [I [W [[S1 S2] P]]].
+  repeat break_match; cbn [fst]; apply xinv_after_crash; (split; [exact I|split; [exact W|split; [|exact P]]]);
     unfold sys_inv, set_sys; cbn; try (split; [exact S1|lia]).
   split; [|lia]. intros m Hm. apply in_app_or in Hm. destruct Hm as [Hm|[Hm|[]]]; [specialize (S1 m Hm); lia|subst m; cbn; lia].
 Qed.
 
+(* ---------- hub.topicsStateForUser ---------- *)
+Lemma state_pred_grp m o u : state_pred CatGrp m o u = N.eqb o u.
+Proof. reflexivity. Qed.
+Lemma state_pred_sys m o u : state_pred CatSys m o u = N.eqb o u.
+Proof. reflexivity. Qed.
+Lemma state_pred_p2p m o u : state_pred CatP2P m o u = m || N.eqb o u.
+Proof. reflexivity. Qed.
+Lemma state_pred_me m o u : state_pred CatMe m o u = false.
+Proof. reflexivity. Qed.
+Lemma state_pred_fnd m o u : state_pred CatFnd m o u = false.
+Proof. reflexivity. Qed.
+
+Lemma mark_topics_xb x u b : xb (mark_topics x u b) = xb x.
+Proof. unfold mark_topics. repeat break_match; reflexivity. Qed.
+Lemma mark_topics_del x u b : x_del (mark_topics x u b) = x_del x.
+Proof. unfold mark_topics. repeat break_match; reflexivity. Qed.
+Lemma mark_topics_susp x u b : x_susp (mark_topics x u b) = x_susp x.
+Proof. unfold mark_topics. repeat break_match; reflexivity. Qed.
+Lemma mark_topics_sys x u b : x_sys_seqid (mark_topics x u b) = x_sys_seqid x /\
+  x_sys_lastid (mark_topics x u b) = x_sys_lastid x /\ x_sys_msgs (mark_topics x u b) = x_sys_msgs x /\
+  x_sys_subs (mark_topics x u b) = x_sys_subs x /\ x_me (mark_topics x u b) = x_me x /\ x_fnd (mark_topics x u b) = x_fnd x.
+Proof. unfold mark_topics. repeat break_match; repeat split; reflexivity. Qed.
+Lemma mark_topics_p2p x u b : x_p2p (mark_topics x u b) = map (mark_p2p u b) (x_p2p x).
+Proof. unfold mark_topics. repeat break_match; reflexivity. Qed.
+(* the group topic: marked iff it is loaded and u is its owner *)
+Lemma mark_topics_ro x u b : x_ro (mark_topics x u b) =
+  match ca (xb x) with Some c => if N.eqb (c_owner c) u then b else x_ro x | None => x_ro x end.
+Proof.
+  unfold mark_topics. destruct (ca (xb x)) as [c|]; [rewrite state_pred_grp; destruct (N.eqb (c_owner c) u)|];
+    destruct (state_pred CatSys _ _ _); reflexivity.
+Qed.
+(* 'sys' has no owner: never marked by the suspension of an account *)
+Lemma mark_topics_sys_ro x u b : u <> 0%N -> x_sys_ro (mark_topics x u b) = x_sys_ro x.
+Proof.
+  intros U. unfold mark_topics. rewrite state_pred_sys.
+  destruct (N.eqb_spec 0 u) as [E|_]; [exfalso; apply U; symmetry; exact E|].
+  repeat break_match; reflexivity.
+Qed.
+Lemma mark_p2p_b u b p : pt_b (mark_p2p u b p) = pt_b p.
+Proof. unfold mark_p2p. repeat break_match; reflexivity. Qed.
+Lemma mark_p2p_ro u b p : pt_ro (mark_p2p u b p) =
+  match ca (pt_b p) with
+  | Some c => if is_member c u || N.eqb (c_owner c) u then b else pt_ro p
+  | None => pt_ro p
+  end.
+Proof. unfold mark_p2p. destruct (ca (pt_b p)) as [c|]; [rewrite state_pred_p2p; destruct (_ || _)|]; reflexivity. Qed.
+Lemma mark_p2p_inv u b p : pt_inv p -> pt_inv (mark_p2p u b p).
+Proof.
+  intros [I R]. split; [rewrite mark_p2p_b; exact I|]. rewrite mark_p2p_b, mark_p2p_ro. intros E. rewrite E. exact (R E).
+Qed.
+
+Lemma xinv_mark_topics x u b : u <> 0%N -> xinv x -> xinv (mark_topics x u b).
+Proof.
+  intros U [I [[W1 W2] [[S1 S2] [R P]]]]. destruct (mark_topics_sys x u b) as [E1 [E2 [E3 _]]].
+  split; [rewrite mark_topics_xb; exact I|]. split; [|split].
+  - split; rewrite mark_topics_xb.
+    + intros E. rewrite mark_topics_ro, E. exact (W1 E).
+    + rewrite mark_topics_del. exact W2.
+  - unfold sys_inv. rewrite E1, E2, E3. split; assumption.
+  - split; [rewrite (mark_topics_sys_ro x u b U); exact R|].
+    rewrite mark_topics_p2p. apply Forall_map. eapply Forall_impl; [|exact P]. intros p. apply mark_p2p_inv.
+Qed.
+
 Lemma xinv_suspend x f u b : xinv x -> xinv (suspend x f u b).
 Proof.
-  intros [I [[W1 W2] S]]. unfold suspend.
-  repeat break_match; (split; [exact I|split; [|exact S]]); split;
-    cbn [xb x_ro x_del set_ro set_susp ca]; intros; try congruence; auto;
-    try (exfalso; match goal with H : x_del _ <> None, W : x_del _ <> None -> None <> None |- _ => apply (W H); reflexivity end).
+  intros X. unfold suspend.
+  destruct (call f 0) as [ok1 n1]. destruct (negb ok1); [exact X|].
+  destruct (N.eqb_spec u 0) as [E|U]; [exact X|].
+  destruct (alookup u (users (st (xb x)))); [|exact X].
+  destruct (Bool.eqb (memN u (x_susp x)) b); [exact X|].
+  destruct (call f n1) as [ok2 n2]. destruct (negb ok2); [exact X|].
+  apply xinv_mark_topics; [exact U|].
+  destruct X as [I [W S]]. split; [exact I|split; [exact W|exact S]].
+Qed.
+
+(* ---------- peer-to-peer topics ---------- *)
+Lemma Forall_upd_nth {A} (P : A -> Prop) k v l : Forall P l -> P v -> Forall P (upd_nth k v l).
+Proof.
+  revert k. induction l as [|a r IH]; intros k F V; [destruct k; constructor|].
+  inversion F; subst. destruct k; cbn; constructor; auto.
+Qed.
+Lemma nth_error_Forall {A} (P : A -> Prop) l k v : Forall P l -> nth_error l k = Some v -> P v.
+Proof. intros F E. apply nth_error_In in E. rewrite Forall_forall in F. auto. Qed.
+
+Lemma xinv_set_p2p x l : xinv x -> Forall pt_inv l -> xinv (set_p2p l x).
+Proof. intros [I [W [S [R _]]]] F. split; [exact I|split; [exact W|split; [exact S|split; [exact R|exact F]]]]. Qed.
+
+Lemma xinv_p2p_step x k f po : xinv x -> xinv (fst (TopicLife.p2p_step dr nr sm x k f po)) /\
+  (x_del x = None -> x_del (fst (TopicLife.p2p_step dr nr sm x k f po)) = None).
+Proof.
+  intros X. unfold p2p_step. destruct (nth_error (x_p2p x) k) as [p|] eqn:E; [|split; [exact X|auto]].
+  destruct (negb _); [split; [exact X|auto]|].
+  assert (PI : pt_inv p) by (destruct X as [_ [_ [_ [_ P]]]]; exact (nth_error_Forall _ _ _ _ P E)).
+  assert (P : Forall pt_inv (x_p2p x)) by (destruct X as [_ [_ [_ [_ P]]]]; exact P).
+  destruct (pt_ro p && pt_attached p (op_sid (p2p_op po)) && is_ppub po) eqn:BL; cbn [fst].
+  - split; [|intros D; apply del_after_crash; exact D].
+    apply xinv_after_crash. apply xinv_set_p2p; [exact X|]. apply Forall_upd_nth; [exact P|].
+    destruct PI as [I R]. split; cbn [pt_b pt_ro ca]; [destruct (pt_b p); exact I|exact R].
+  - pose proof (step_f_inv_num dr nr sm (pt_b p) (f, p2p_op po) (proj1 PI)) as I1.
+    destruct (step_f dr nr sm (pt_b p) (f, p2p_op po)) as [b1 o1]. cbn [fst] in *.
+    split; [|intros D; apply del_after_crash; exact D].
+    apply xinv_after_crash. apply xinv_set_p2p; [exact X|]. apply Forall_upd_nth; [exact P|].
+    split; cbn [pt_b pt_ro]; [exact I1|]. intros C. rewrite C. reflexivity.
 Qed.
 
 Lemma xinv_xcore x e : x_del x = None -> xinv x -> xinv (fst (xcore x e)).
@@ -238,6 +362,7 @@ Proof.
   - exact X.
   - exact X.
   - apply xinv_publish_sys. exact X.
+  - apply xinv_p2p_step. exact X.
 Qed.
 
 Lemma xinv_xstep x e : xinv x -> xinv (fst (xstep x e)).
@@ -258,19 +383,176 @@ Proof.
   specialize (IH x1 X1). destruct (xrun x1 h) as [x2 os]. exact IH.
 Qed.
 
-Lemma xinv_init s : fresh s -> xinv (xinit s).
+Lemma xinv_init_pop s subs ps : fresh s -> Forall fresh ps -> xinv (xinit_pop s subs ps).
 Proof.
-  intros F. split; [apply fresh_inv; exact F|]. split; [split; cbn; congruence|].
-  split; cbn; [intros m []|lia].
+  intros F FP. split; [apply fresh_inv; exact F|]. split; [split; cbn; congruence|].
+  split; [split; cbn; [intros m []|lia]|]. split; [reflexivity|]. unfold xinit_pop. cbn [x_p2p].
+  apply Forall_map. eapply Forall_impl; [|exact FP]. intros s' F'. split; cbn [pt_b pt_ro ca]; [apply fresh_inv; exact F'|reflexivity].
 Qed.
+Lemma xinv_init s : fresh s -> xinv (xinit s).
+Proof. intros F. apply xinv_init_pop; [exact F|constructor]. Qed.
 
 (* ---------- suspension ---------- *)
+Definition susp_upd (l : list N) (u : N) (b : bool) : list N :=
+  if b then u :: l else filter (fun v => negb (N.eqb v u)) l.
+
+(* a request that changes the state of an existing account marks the loaded topics; any other request
+   (unknown account, account already in that state, a failed store call) changes nothing at all *)
+Lemma suspend_success x u b a : u <> 0%N -> alookup u (users (st (xb x))) = Some a -> memN u (x_susp x) = negb b ->
+  suspend x NoFault u b = mark_topics (set_susp (susp_upd (x_susp x) u b) x) u b.
+Proof.
+  intros U US MS. unfold suspend. cbn [call fails negb].
+  destruct (N.eqb_spec u 0) as [E|_]; [contradiction|]. rewrite US, MS.
+  destruct b; reflexivity.
+Qed.
+Lemma suspend_cases x f u b : suspend x f u b = x \/
+  (u <> 0%N /\ memN u (x_susp x) = negb b /\ suspend x f u b = mark_topics (set_susp (susp_upd (x_susp x) u b) x) u b).
+Proof.
+  unfold suspend. destruct (call f 0) as [ok1 n1]. destruct (negb ok1); [left; reflexivity|].
+  destruct (N.eqb_spec u 0) as [E|U]; [left; reflexivity|].
+  destruct (alookup u (users (st (xb x)))); [|left; reflexivity].
+  destruct (Bool.eqb (memN u (x_susp x)) b) eqn:EB; [left; reflexivity|].
+  destruct (call f n1) as [ok2 n2]. destruct (negb ok2); [left; reflexivity|].
+  right. split; [exact U|]. split; [|destruct b; reflexivity].
+  destruct (memN u (x_susp x)), b; cbn in *; congruence.
+Qed.
+
 (* the read-only bit is set on the loaded topic of the user who is being suspended ... *)
-Lemma suspend_marks x u b c a : ca (xb x) = Some c -> c_owner c = u -> alookup u (users (st (xb x))) = Some a ->
+Lemma suspend_marks x u b c a : u <> 0%N -> ca (xb x) = Some c -> c_owner c = u -> alookup u (users (st (xb x))) = Some a ->
   memN u (x_susp x) = negb b -> x_ro (suspend x NoFault u b) = b.
 Proof.
-  intros CA OW US MS. unfold suspend. cbn [call fails negb]. rewrite US, MS.
-  destruct b; cbn [Bool.eqb negb]; rewrite CA, OW, N.eqb_refl; reflexivity.
+  intros U CA OW US MS. rewrite (suspend_success x u b a U US MS), mark_topics_ro. cbn [xb set_susp].
+  rewrite CA, OW, N.eqb_refl. reflexivity.
+Qed.
+
+(* ... and exactly there: every loaded topic of every category *)
+Lemma suspend_exact x u b a : u <> 0%N -> alookup u (users (st (xb x))) = Some a -> memN u (x_susp x) = negb b ->
+  let x' := suspend x NoFault u b in
+  (* the group topic: iff u is its owner; a plain member's suspension leaves it alone *)
+  x_ro x' = match ca (xb x) with Some c => if N.eqb (c_owner c) u then b else x_ro x | None => x_ro x end /\
+  (* 'sys': never, whether u is one of its subscribers or not *)
+  x_sys_ro x' = x_sys_ro x /\
+  (* the peer-to-peer topics: the loaded ones u is a party of (no p2p topic has an owner) *)
+  x_p2p x' = map (mark_p2p u b) (x_p2p x) /\
+  (* nothing else changes but the account's state *)
+  xb x' = xb x /\ x_del x' = x_del x /\ x_susp x' = susp_upd (x_susp x) u b /\ x_me x' = x_me x /\ x_fnd x' = x_fnd x /\
+  x_sys_seqid x' = x_sys_seqid x /\ x_sys_lastid x' = x_sys_lastid x /\ x_sys_msgs x' = x_sys_msgs x /\
+  x_sys_subs x' = x_sys_subs x.
+Proof.
+  intros U US MS. cbv zeta. rewrite (suspend_success x u b a U US MS).
+  destruct (mark_topics_sys (set_susp (susp_upd (x_susp x) u b) x) u b) as [E1 [E2 [E3 [E4 [E5 E6]]]]].
+  rewrite mark_topics_ro, (mark_topics_sys_ro _ u b U), mark_topics_p2p, mark_topics_xb, mark_topics_del, mark_topics_susp,
+    E1, E2, E3, E4, E5, E6.
+  repeat split; reflexivity.
+Qed.
+
+(* 'sys' is not read-only in any reachable state, hence: *)
+Lemma sys_accepts_reachable x sid c : xinv x -> sess_uid sm sid <> 0%N ->
+  publish_sys sm x NoFault sid c =
+    (set_sys (x_sys_lastid x + 1) (x_sys_lastid x + 1)
+             (x_sys_msgs x ++ [mkMsg (x_sys_lastid x + 1) (sess_uid sm sid) c 0]) x,
+     (sid, Ctrl 202 [(P_seq, x_sys_lastid x + 1)]) :: sys_push x (x_sys_lastid x + 1) (sess_uid sm sid)).
+Proof. intros [_ [_ [S [R _]]]] U. apply publish_sys_accepts; assumption. Qed.
+
+(* as an event of a history: the only other thing that can complete on the way is a delete already in flight *)
+Lemma xstep_pub_sys x f sid c :
+  xstep x (EPubSys f sid c) =
+    (fst (publish_sys sm (fst (del_finish x)) f sid c), snd (del_finish x) ++ snd (publish_sys sm (fst (del_finish x)) f sid c)).
+Proof.
+  unfold TopicLife.xstep. destruct (x_del x) eqn:D.
+  - destruct (del_finish x) as [x1 o1]. cbn [TopicLife.xcore fst snd]. destruct (publish_sys sm x1 f sid c). reflexivity.
+  - unfold del_finish. rewrite D. cbn [TopicLife.xcore fst snd app]. destruct (publish_sys sm x f sid c). reflexivity.
+Qed.
+Lemma xstep_pub_sys_accepts x sid c : xinv x -> sess_uid sm sid <> 0%N ->
+  let x1 := fst (del_finish x) in
+  xstep x (EPubSys NoFault sid c) =
+    (set_sys (x_sys_lastid x1 + 1) (x_sys_lastid x1 + 1) (x_sys_msgs x1 ++ [mkMsg (x_sys_lastid x1 + 1) (sess_uid sm sid) c 0]) x1,
+     snd (del_finish x) ++ (sid, Ctrl 202 [(P_seq, x_sys_lastid x1 + 1)]) :: sys_push x1 (x_sys_lastid x1 + 1) (sess_uid sm sid)).
+Proof.
+  intros X U. cbv zeta. rewrite xstep_pub_sys. rewrite (sys_accepts_reachable _ sid c (proj1 (xinv_del_finish x X)) U). reflexivity.
+Qed.
+
+(* a suspension as an event of a history *)
+Lemma xstep_suspend x f u b : x_del x = None -> xstep x (ESuspend f u b) = (after_crash f (suspend x f u b), []).
+Proof. intros D. unfold TopicLife.xstep. rewrite D. reflexivity. Qed.
+
+(* ---------- publishes to a peer-to-peer topic ---------- *)
+Definition p2p_addressable (p : ptopic) (sid : N) : bool :=
+  negb (sess_uid sm sid =? 0)%N && p2p_party p (sess_uid sm sid).
+(* the conjunction the property lists, for a peer-to-peer topic *)
+Definition p2p_accepts (p : ptopic) (sid : N) : bool :=
+  p2p_addressable p sid && negb (pt_ro p) && accepts sm (pt_b p) sid.
+
+Notation p2p_step := (TopicLife.p2p_step dr nr sm).
+
+Lemma pt_attached_accepts p sid : pt_attached p sid = false -> accepts sm (pt_b p) sid = false.
+Proof. unfold pt_attached, accepts. destruct (ca (pt_b p)); [|reflexivity]. intros ->. reflexivity. Qed.
+
+Lemma p2p_accept_iff x k p sid content noecho : nth_error (x_p2p x) k = Some p -> inv_num (pt_b p) ->
+  ((exists n, first_reply (snd (p2p_step x k NoFault (PPub sid content noecho))) sid = Some (Ctrl 202 [(P_seq, n)]))
+   <-> p2p_accepts p sid = true).
+Proof.
+  intros E I. unfold TopicLife.p2p_step, p2p_accepts, p2p_addressable. rewrite E. cbn [p2p_op op_sid is_ppub].
+  destruct (negb (sess_uid sm sid =? 0)%N && p2p_party p (sess_uid sm sid)); cbn [negb andb].
+  2:{ cbn. split; [intros [n H]; discriminate|discriminate]. }
+  rewrite andb_true_r.
+  destruct (pt_ro p) eqn:RO; cbn [andb negb].
+  - destruct (pt_attached p sid) eqn:AT.
+    + unfold first_reply. cbn [snd]. rewrite N.eqb_refl. split; [intros [n H]; discriminate|discriminate].
+    + rewrite step_f_nofault.
+      pose proof (accept_iff dr nr sm (pt_b p) sid content noecho I) as A.
+      rewrite (pt_attached_accepts _ _ AT) in A.
+      destruct (step dr nr sm NoFault (pt_b p) (OPub sid content noecho)) as [b1 o1]. cbn [snd] in *.
+      split; [intros H; apply A in H; discriminate|discriminate].
+  - rewrite step_f_nofault.
+    pose proof (accept_iff dr nr sm (pt_b p) sid content noecho I) as A.
+    destruct (step dr nr sm NoFault (pt_b p) (OPub sid content noecho)) as [b1 o1]. cbn [snd] in *. exact A.
+Qed.
+
+(* the stores of the peer-to-peer topics *)
+Definition p2p_stores (x : xstate) : list store := map (fun p => st (pt_b p)) (x_p2p x).
+Lemma p2p_stores_mem_reset x : p2p_stores (mem_reset x) = p2p_stores x.
+Proof. unfold p2p_stores, mem_reset. cbn [x_p2p]. rewrite map_map. apply map_ext. reflexivity. Qed.
+Lemma p2p_stores_after_crash f x : p2p_stores (after_crash f x) = p2p_stores x.
+Proof. destruct f; cbn [after_crash]; auto using p2p_stores_mem_reset. Qed.
+Lemma upd_nth_same_store k p p' l : nth_error l k = Some p -> st (pt_b p') = st (pt_b p) ->
+  map (fun q => st (pt_b q)) (upd_nth k p' l) = map (fun q => st (pt_b q)) l.
+Proof.
+  revert k. induction l as [|a r IH]; intros k E S; [destruct k; discriminate|].
+  destruct k; cbn in *; [inversion E; subst; rewrite S; reflexivity|]. rewrite (IH k E S). reflexivity.
+Qed.
+
+(* a rejected publish to a peer-to-peer topic, for any fault plan: exactly one error reply to the sender, every
+   store is what it was; unless the plan is a crash nothing in memory changes either *)
+Lemma p2p_reject_no_effect x k p f sid content noecho : nth_error (x_p2p x) k = Some p -> pt_inv p ->
+  p2p_addressable p sid = true -> p2p_accepts p sid = false ->
+  exists code, 400 <= code /\
+    snd (p2p_step x k f (PPub sid content noecho)) = [(sid, Ctrl code [])] /\
+    p2p_stores (fst (p2p_step x k f (PPub sid content noecho))) = p2p_stores x /\
+    st (xb (fst (p2p_step x k f (PPub sid content noecho)))) = st (xb x) /\
+    x_sys_msgs (fst (p2p_step x k f (PPub sid content noecho))) = x_sys_msgs x /\
+    (is_crash f = false ->
+     fst (p2p_step x k f (PPub sid content noecho)) =
+       set_p2p (upd_nth k (mkPT (mkState (st (pt_b p)) (ca (pt_b p)) 0) (pt_ro p)) (x_p2p x)) x).
+Proof.
+  intros E [I R] AD A. unfold p2p_accepts in A. rewrite AD in A. cbn [andb] in A.
+  unfold TopicLife.p2p_step. rewrite E. cbn [p2p_op op_sid is_ppub]. unfold p2p_addressable in AD. rewrite AD. cbn [negb].
+  rewrite andb_true_r.
+  destruct (pt_ro p && pt_attached p sid) eqn:BL.
+  - exists 403. split; [lia|]. cbn [fst snd]. split; [reflexivity|].
+    split; [rewrite p2p_stores_after_crash; unfold p2p_stores; cbn [x_p2p set_p2p]; apply (upd_nth_same_store k p); [exact E|reflexivity]|].
+    split; [destruct f; reflexivity|]. split; [destruct f; reflexivity|].
+    intros NC. destruct f; [reflexivity|reflexivity|discriminate].
+  - assert (AC : accepts sm (pt_b p) sid = false).
+    { destruct (pt_ro p) eqn:RO; cbn [andb negb] in *; [apply pt_attached_accepts; exact BL|exact A]. }
+    destruct (reject_no_effect dr nr sm f (pt_b p) sid content noecho AC) as [code [Hc EE]].
+    exists code. split; [exact Hc|]. unfold step_f. cbn [fst snd]. rewrite EE.
+    assert (RR : (match ca (pt_b p) with None => false | Some _ => pt_ro p end) = pt_ro p)
+      by (destruct (ca (pt_b p)) eqn:CA; [reflexivity|symmetry; apply R; reflexivity]).
+    destruct f; cbn [fst snd st ca ncalls]; (split; [reflexivity|]);
+      (split; [rewrite p2p_stores_after_crash; unfold p2p_stores; cbn [x_p2p set_p2p]; apply (upd_nth_same_store k p); [exact E|reflexivity]|]);
+      (split; [reflexivity|]); (split; [reflexivity|]); intros NC; try discriminate;
+      cbn [after_crash]; rewrite RR; reflexivity.
 Qed.
 
 (* ---------- the cached grant is the stored grant, along every history of the wrapper model ---------- *)
@@ -315,7 +597,15 @@ Proof.
 Qed.
 
 Lemma xb_suspend x f u b : xb (suspend x f u b) = xb x.
-Proof. unfold suspend. repeat break_match; reflexivity. Qed.
+Proof. destruct (suspend_cases x f u b) as [->|[_ [_ ->]]]; [reflexivity|rewrite mark_topics_xb; reflexivity]. Qed.
+
+Lemma xb_p2p_step x k f po : xb (fst (p2p_step x k f po)) = xb (after_crash f x) \/ xb (fst (p2p_step x k f po)) = xb x.
+Proof.
+  unfold TopicLife.p2p_step. destruct (nth_error (x_p2p x) k); [|right; reflexivity].
+  destruct (negb _); [right; reflexivity|].
+  destruct (_ && _ && _); cbn [fst]; [left; destruct f; reflexivity|].
+  destruct (step_f dr nr sm (pt_b p) (f, p2p_op po)). cbn [fst]. left. destruct f; reflexivity.
+Qed.
 
 Lemma cohx_publish_sys x f sid c : cohx (xb x) -> cohx (xb (fst (publish_sys sm x f sid c))).
 Proof.
@@ -349,6 +639,7 @@ Proof.
   - exact C.
   - exact C.
   - now apply cohx_publish_sys.
+  - destruct (xb_p2p_step x k f o) as [->| ->]; [apply cohx_after_crash|]; exact C.
 Qed.
 
 Lemma cohx_xstep x e : xsafe_step x e = true -> cohx (xb x) -> cohx (xb (fst (xstep x e))).
